@@ -16,3 +16,33 @@ Proof. vm_compute. reflexivity. Qed.
 (* C09 depends on the guard of commit_read (when the reader position is published) *)
 Lemma bq_commit_read_guard_ok : SrcFacts.sk_bq_commit_read = Expected.sk_bq_commit_read.
 Proof. vm_compute. reflexivity. Qed.
+
+(* the backend's read pass over one frontend queue (BackendWorker::_read_and_decode_frontend_queue), as modelled by
+   read_loop / read_queue of Backend/BEDefs.v: prepare_read, decode (may refuse: timestamp beyond the grace cut-off),
+   finish_read, until the byte or the hard limit is reached; then commit_read whenever anything was read. The
+   backend-level clause of C09 (Backend/BEPub.v) rests on that last line: no pass that consumed bytes ends without
+   handing the reader position to commit_read. *)
+Local Open Scope string_scope.
+Lemma src_be_read_pass_commits : SrcFacts.sk_be_read_and_decode_frontend_queue = [
+    "DECL size_t const queue_capacity = frontend_queue.capacity();";
+    "DECL size_t total_bytes_read{0};";
+    "DO";
+    "  DECL std::byte* read_pos;";
+    "  IF std::is_same_v<TFrontendQueue, UnboundedSPSCQueue>";
+    "    EXPR read_pos = _read_unbounded_frontend_queue(frontend_queue, thread_context)";
+    "  ELSE";
+    "    EXPR read_pos = frontend_queue.prepare_read()";
+    "  IF !read_pos";
+    "    BREAK";
+    "  DECL std::byte const* const read_begin = read_pos;";
+    "  IF !_populate_transit_event_from_frontend_queue(read_pos, thread_context, ts_now)";
+    "    BREAK";
+    "  EXPR assert";
+    "  DECL auto const bytes_read = static_cast<size_t>(read_pos - read_begin);";
+    "  EXPR frontend_queue.finish_read(bytes_read)";
+    "  EXPR total_bytes_read += bytes_read";
+    "DOWHILE (total_bytes_read < queue_capacity) && (thread_context->_transit_event_buffer->size() < _options.transit_events_hard_limit)";
+    "IF total_bytes_read != 0";
+    "  EXPR frontend_queue.commit_read()";
+    "RET return thread_context->_transit_event_buffer->size()"].
+Proof. vm_compute. reflexivity. Qed.
